@@ -277,12 +277,14 @@ def run(pid, tier, seed):
     mismatches, violations, known_hits = [], [], {}
     nontrivial, evaluated = set(), 0
     samples = []
-    for prof in spec["profiles"]:
+    CHUNK = 1500       # outputs with state dumps are large: never hold more than one chunk of them
+    for prof, chunk in [(p_, hist[i:i + CHUNK]) for p_ in spec["profiles"] for i in range(0, len(hist), CHUNK)]:
         dbg = 1 if prof == "debug" else 0
-        texts = [(hid, ec.history_text(hid, lines, debug=dbg, dump=1 if spec["dump"] else 0)) for hid, lines in hist]
+        texts = [(hid, ec.history_text(hid, lines, debug=dbg, dump=1 if spec["dump"] else 0)) for hid, lines in chunk]
         mo = ec.run_all(model, texts)
         io = ec.run_all(impl[prof], texts)
-        for hid, lines in hist:
+        del texts
+        for hid, lines in chunk:
             evaluated += 1
             ml = ec.normalise(mo.get(hid, []))
             il = ec.normalise(io.get(hid, []))
